@@ -204,3 +204,172 @@ Definition gk_eqb (g : group) (k : knock) : bool :=
 
 Definition rk_eqb (r : report) (k : knock) : bool :=
   ((r_smac r =? k_smac k) && (r_dmac r =? k_dmac k) && (r_sip r =? k_sip k) && (r_dip r =? k_dip k))%N.
+
+(* ---------------------------------------------------------------- from the frame to the knock *)
+(* The receive path byte by byte: ethernet.Parse, ipv4.Parse, then udp.Unmarshal / icmp.Parse /
+   tcp.UnmarshalWithChecksum and the guards of handleUDP / handleICMP / handleTCP in front of
+   the knockChan sends.  Every field of the knock is the byte range the decoders extract. *)
+Open Scope N_scope.
+
+Definition u8 (d : bytes) (i : nat) : N := nth i d 0.
+Definition u16 (d : bytes) (i : nat) : N := u8 d i * 256 + u8 d (S i).
+Definition be32 (d : bytes) (i : nat) : N := u16 d i * 65536 + u16 d (S (S i)).
+Definition be48 (d : bytes) (i : nat) : N := u16 d i * 4294967296 + be32 d (S (S i)).
+Definition blen (d : bytes) : N := N.of_nat (length d).
+
+(* ipv4.Header.Unmarshal: the payload is b[20:TotalLen] - IP options count as payload; the
+   version nibble is not looked at *)
+Record ipdec := mkIpDec { ip_proto : N; ip_src : N; ip_dst : N; ip_payload : bytes }.
+
+Definition ipv4_decode (b : bytes) : option ipdec :=
+  if blen b <? 20 then None
+  else if blen b <? (u8 b 0 mod 16) * 4 then None
+  else if blen b <? u16 b 2 then None
+  else if u16 b 2 <? 20 then None
+  else Some (mkIpDec (u8 b 9) (be32 b 12) (be32 b 16)
+                     (firstn (N.to_nat (u16 b 2 - 20)) (skipn 20 b))).
+
+(* udp.Unmarshal: (source port, destination port) *)
+Definition udp_decode (d : bytes) : option (N * N) :=
+  if blen d <? 8 then None
+  else if negb (u16 d 4 =? blen d) then None
+  else Some (u16 d 0, u16 d 2).
+
+(* icmp.Parse succeeds from 8 bytes on (an echo without data is 8 bytes) *)
+Definition icmp_decode (d : bytes) : bool := 8 <=? blen d.
+
+(* tcp.Header.Unmarshal: the option loop over data[20:dataStart] *)
+Fixpoint tcp_opts_ok (fuel : nat) (o : bytes) : bool :=
+  match fuel with
+  | O => true
+  | S f =>
+      match o with
+      | [] => true
+      | k :: r =>
+          if k =? 0 then true                      (* end of option list *)
+          else if k =? 1 then tcp_opts_ok f r      (* nop *)
+          else match r with
+               | [] => false                       (* kind without length *)
+               | l :: _ => if l <? 2 then false
+                           else if blen o <? l then false
+                           else tcp_opts_ok f (skipn (N.to_nat l) o)
+               end
+      end
+  end.
+
+Definition tcp_unmarshal_ok (d : bytes) : bool :=
+  let off := u8 d 12 / 16 in
+  (20 <=? blen d) && (5 <=? off) && (off * 4 <=? blen d) &&
+  tcp_opts_ok (length d) (firstn (N.to_nat (off * 4 - 20)) (skipn 20 d)).
+
+(* tcp.csum: pseudo header + length + every 16-bit word except the checksum field, a trailing
+   odd byte as the high byte; folded; complemented *)
+Fixpoint sum_words (i : N) (d : bytes) (acc : N) : N :=
+  match d with
+  | a :: b :: r => sum_words (i + 2) r (if i =? 16 then acc else acc + a * 256 + b)
+  | [a] => acc + a * 256
+  | [] => acc
+  end.
+Definition fold16 (c : N) : N := if 0 <? c / 65536 then c mod 65536 + c / 65536 else c.
+Definition tcp_csum (d : bytes) (src dst : N) : N :=
+  let s := src / 65536 + src mod 65536 + dst / 65536 + dst mod 65536 + 6 + blen d in
+  65535 - fold16 (fold16 (fold16 (sum_words 0 d s))).
+
+(* UnmarshalWithChecksum as used by handleTCP: an Unmarshal error is masked by
+   ErrInvalidChecksum ("ignored for now") when the checksum does not match; a segment
+   shorter than 20 bytes leaves the header zero (no flags) *)
+Definition tcp_header_used (d : bytes) (src dst : N) : bool :=
+  (20 <=? blen d) && (tcp_unmarshal_ok d || negb (tcp_csum d src dst =? u16 d 16)).
+
+(* the state table as far as the knock depends on it: the connection records in slot order
+   (nothing is removed on the paths modelled), each with its state.  stateTable.Get returns the
+   FIRST record that matches loosely: each port of the segment equals one of the record's two
+   ports, each address one of its two addresses. *)
+Definition tuple := (N * N * N * N)%type.     (* SrcIP, DestIP, SrcPort, DestPort *)
+Definition tmatch (e q : tuple) : bool :=
+  let '(es, ed, esp, edp) := e in let '(qs, qd, qsp, qdp) := q in
+  ((esp =? qsp) || (edp =? qsp)) && ((edp =? qdp) || (esp =? qdp)) &&
+  ((es =? qs) || (ed =? qs)) && ((ed =? qd) || (es =? qd)).
+Definition ttable := list (tuple * sstate).
+Fixpoint tget (t : ttable) (q : tuple) : option sstate :=
+  match t with
+  | [] => None
+  | (e, s) :: r => if tmatch e q then Some s else tget r q
+  end.
+(* the state change goes to that first matching record *)
+Fixpoint tset (t : ttable) (q : tuple) (s : sstate) : ttable :=
+  match t with
+  | [] => []
+  | (e, s') :: r => if tmatch e q then (e, s) :: r else (e, s') :: tset r q s
+  end.
+
+(* FPanic: ethernet.Parse slices data[12:14] of a frame shorter than 14 bytes (an AF_PACKET
+   socket never delivers one).  FUnknown: the segment continues an existing connection in a
+   way only the TCP state machine (C14) decides; no knock is queued on those paths either, but
+   the table is not tracked further. *)
+Inductive fout := FKnock (k : knock) | FNone | FPanic | FUnknown.
+
+Definition rx_tcp (me : list N) (tb : ttable) (smac dmac : N) (ip : ipdec) : fout * ttable :=
+  let d := ip_payload ip in
+  if negb (tcp_header_used d (ip_src ip) (ip_dst ip)) then (FNone, tb)
+  else if negb (existsb (N.eqb (ip_dst ip)) me) then (FNone, tb)
+  else
+    let sport := u16 d 0 in let dport := u16 d 2 in let fl := u8 d 13 mod 64 in
+    let syn := flag fl 1 in let ack := flag fl 4 in let rst := flag fl 2 in let fin := flag fl 0 in
+    if (sport =? 22) || (dport =? 22) then (FNone, tb)
+    else
+      let k := (ip_src ip, ip_dst ip, sport, dport) in
+      let kn := FKnock (mkKnock KTcp smac dmac (ip_src ip) (ip_dst ip) dport) in
+      if syn && negb ack then
+        (* always a new record (next free slot), Listen -> SynReceived, reported *)
+        (kn, tb ++ [(k, SSynReceived)])
+      else
+        match tget tb k with
+        | None => (FNone, tb)
+        | Some SListen =>
+            if syn then (kn, tset tb k SSynReceived)
+            else if fin then (FUnknown, tb) else (FNone, tb)
+        | Some SSynReceived =>
+            if rst then (FNone, tset tb k SListen)
+            else if syn then (FNone, tb)
+            else if negb ack then (FNone, tb)
+            else (FUnknown, tb)
+        | Some _ => (FUnknown, tb)
+        end.
+
+Definition rx_frame (me : list N) (tb : ttable) (f : bytes) : fout * ttable :=
+  if blen f <? 14 then (FPanic, tb)
+  else if negb (u16 f 12 =? 2048) then (FNone, tb)          (* ARP is handled only with doARP *)
+  else
+    let smac := be48 f 6 in let dmac := be48 f 0 in
+    match ipv4_decode (skipn 14 f) with
+    | None => (FNone, tb)
+    | Some ip =>
+        let isme := existsb (N.eqb (ip_dst ip)) me in
+        match ip_proto ip with
+        | 1 => if icmp_decode (ip_payload ip) && isme
+               then (FKnock (mkKnock KIcmp smac dmac (ip_src ip) (ip_dst ip) 0), tb) else (FNone, tb)
+        | 17 => match udp_decode (ip_payload ip) with
+                | None => (FNone, tb)
+                | Some (sport, dport) =>
+                    if isme && negb (existsb (N.eqb dport) udp_decoder_ports)
+                    then (FKnock (mkKnock KUdp smac dmac (ip_src ip) (ip_dst ip) dport), tb)
+                    else (FNone, tb)
+                end
+        | 6 => rx_tcp me tb smac dmac ip
+        | _ => (FNone, tb)
+        end
+    end.
+
+Fixpoint rx_frames (me : list N) (tb : ttable) (fs : list bytes) : list fout :=
+  match fs with
+  | [] => []
+  | f :: r => let '(o, tb') := rx_frame me tb f in o :: rx_frames me tb' r
+  end.
+
+(* ---- the frames a scanner sends, by their fields (all bytes) ---- *)
+Definition eth_hdr (dm sm : bytes) : bytes := dm ++ sm ++ [8; 0].
+(* a 20-byte IPv4 header: v = version/IHL byte, (tl1, tl0) = total length *)
+Definition ip_hdr (v tos tl1 tl0 id1 id0 fr1 fr0 ttl proto ck1 ck0 : N) (src dst : bytes) : bytes :=
+  [v; tos; tl1; tl0; id1; id0; fr1; fr0; ttl; proto; ck1; ck0] ++ src ++ dst.
+Close Scope N_scope.
